@@ -343,6 +343,10 @@ def hit(kind, a, b, text, idx=0):
         return ["d%d" % idx, b"XYZ"[: max(1, (b - a) % 4)] + b"q", "obf", a, b, []]
     if kind == "dec2":
         return ["d%d" % idx, b"xyzzy", "obf", a, b, []]
+    if kind == "rot":       # decoded, same length as the covered text, no obfuscation label
+        return ["r%d" % idx, bytes((c + 1) % 256 or 1 for c in raw), "", a, b, []]
+    if kind == "prefix":    # decoded value is a proper prefix of the covered text (trimmed padding)
+        return ["p%d" % idx, raw[:-1] if len(raw) > 1 else b"Z", "trim", a, b, []]
     if kind == "kids":
         return ["u%d" % idx, raw, "", a, b, [["part", raw[:1], "", 0, 1, []]]]
     if kind == "restate":
@@ -356,7 +360,7 @@ def spans(n):
     return [(a, b) for a in range(n) for b in range(a + 1, n + 1)]
 
 
-def exhaustive_tables(text, max_hits, kinds=("ctx", "case", "dec", "kids")):
+def exhaustive_tables(text, max_hits, kinds=("ctx", "case", "dec", "kids", "rot", "prefix")):
     atoms = [(k, a, b) for (a, b) in spans(len(text)) for k in kinds]
     inner = (b"xyzzy", [hit("ctx", 1, 4, b"xyzzy", 7), hit("dec", 2, 3, b"xyzzy", 8)])
     for n in range(0, max_hits + 1):
@@ -368,11 +372,11 @@ def exhaustive_tables(text, max_hits, kinds=("ctx", "case", "dec", "kids")):
 def random_table(rng, malformed=False):
     n = rng.randint(4, 9)
     text = bytes(rng.choice(b"abcdeABC") for _ in range(n))
-    kinds = ["ctx", "ctx", "ctx", "case", "dec", "dec2", "kids", "restate"]
+    kinds = ["ctx", "ctx", "ctx", "case", "dec", "dec2", "kids", "restate", "rot", "prefix"]
     if rng.random() < 0.1:
         kinds.append("empty")
     table = []
-    texts = [text, b"xyzzy", b"XYZq", b"Xq", b"XYq", b"q"]
+    texts = [text, b"xyzzy", b"XYZq", b"Xq", b"XYq", b"q", bytes((c + 1) % 256 or 1 for c in text[1:4]), text[1:3]]
     for t in texts[: rng.randint(1, 4)]:
         hits = []
         for i in range(rng.randint(0, 8)):
